@@ -1817,18 +1817,40 @@ package spec
 //@   params w
 //@   assigns nothing
 //@   ensures freshObj(result) && encSink(result) == payload(w)
+// what was sent into a stream, by the type of the value (the streams of this package carry one value each):
+//   gobVal       a []byte payload (Ref)
+//   gobProps/gobExt/gobOpProps   the fields of the wrapper structs of Swagger and Operation
+//   gobPad/gobPadAlias, gobOpPad/gobOpPadAlias   the padding structs of SwaggerProps / OperationProps and what their Alias pointed to
+//@ ghost gobProps smt:(Array Int S_SwaggerProps)
+//@ ghost gobExt smt:(Array Int S_VendorExtensible)
+//@ ghost gobOpProps smt:(Array Int S_OperationProps)
+//@ ghost gobPad smt:(Array Int S_gobSwaggerPropsAlias)
+//@ ghost gobPadAlias smt:(Array Int S_SwaggerProps)
+//@ ghost gobOpPad smt:(Array Int S_gobAlias)
+//@ ghost gobOpPadAlias smt:(Array Int S_OperationProps)
 //@ ext (*encoding/gob.Encoder).Encode
 //@   params e, v
-//@   assigns ghost(gobVal)
+//@   assigns ghost(gobVal, gobProps, gobExt, gobOpProps, gobPad, gobPadAlias, gobOpPad, gobOpPadAlias)
 //@   ensures holds(v, "[]byte") ==> result == nil && gobVal == upd(old(gobVal), encSink(e), jv(asValue(v, "[]byte")))
+//@   ensures holds(v, "struct{Props SwaggerProps; Ext VendorExtensible}") && result == nil ==>
+//@             gobProps[encSink(e)] == asValue(v, "struct{Props SwaggerProps; Ext VendorExtensible}").Props && gobExt[encSink(e)] == asValue(v, "struct{Props SwaggerProps; Ext VendorExtensible}").Ext
+//@   ensures holds(v, "struct{Ext VendorExtensible; Props OperationProps}") && result == nil ==>
+//@             gobOpProps[encSink(e)] == asValue(v, "struct{Ext VendorExtensible; Props OperationProps}").Props && gobExt[encSink(e)] == asValue(v, "struct{Ext VendorExtensible; Props OperationProps}").Ext
+//@   ensures holds(v, "gobSwaggerPropsAlias") && result == nil ==> gobPad[encSink(e)] == asValue(v, "gobSwaggerPropsAlias")
+//@             && (asValue(v, "gobSwaggerPropsAlias").Alias != nil ==> gobPadAlias[encSink(e)] == *asValue(v, "gobSwaggerPropsAlias").Alias)
+//@   ensures holds(v, "gobAlias") && result == nil ==> gobOpPad[encSink(e)] == asValue(v, "gobAlias")
+//@             && (asValue(v, "gobAlias").Alias != nil ==> gobOpPadAlias[encSink(e)] == *asValue(v, "gobAlias").Alias)
+// the bytes of a buffer name the stream they were taken from; a buffer made from bytes reads that stream
+//@ specfn gobStream([]byte) ptr
+//@ ghost bufStream smt:(Array Int Int)
 //@ ext (*bytes.Buffer).Bytes
 //@   params b
 //@   assigns nothing
-//@   ensures result != nil && gobOf(result) == gobVal[b] && gobWF(result) && textOf(result) == bufText[b]
+//@   ensures result != nil && gobOf(result) == gobVal[b] && gobWF(result) && textOf(result) == bufText[b] && gobStream(result) == b
 //@ ext bytes.NewBuffer
 //@   params buf
-//@   assigns ghost(gobVal, bufText)
-//@   ensures freshObj(result) && gobVal == upd(old(gobVal), result, gobOf(buf)) && bufText == upd(old(bufText), result, (buf == nil ? "" : textOf(buf)))
+//@   assigns ghost(gobVal, bufText, bufStream)
+//@   ensures freshObj(result) && gobVal == upd(old(gobVal), result, gobOf(buf)) && bufText == upd(old(bufText), result, (buf == nil ? "" : textOf(buf))) && bufStream == upd(old(bufStream), result, gobStream(buf))
 // the text a buffer holds (what was written to it, in order)
 //@ ghost bufText smt:(Array Int String)
 //@ specfn textOf([]byte) string
@@ -1844,10 +1866,34 @@ package spec
 //@   params r
 //@   assigns nothing
 //@   ensures freshObj(result) && decSrc(result) == payload(r)
+// what a value looks like after gob transport (assumed: encoding/gob; see the type-directed obligations of C14 for where it is lossy)
+//@ specfn gobrtSwaggerProps(SwaggerProps) SwaggerProps
+//@ specfn gobrtOperationProps(OperationProps) OperationProps
+//@ specfn gobrtExt(VendorExtensible) VendorExtensible
+//@ specfn gobrtSwaggerAlias(SwaggerProps) SwaggerProps
+//@ specfn gobrtOpsAlias(OperationProps) OperationProps
+// gob keeps strings, and the length of a slice (an empty slice comes back nil)
+//@ axiom forall x SwaggerProps :: triggers(gobrtSwaggerAlias(x)) && (len(gobrtSwaggerAlias(x).Security) == len(x.Security) && (len(x.Security) == 0 ==> gobrtSwaggerAlias(x).Security == nil)
+//@           && gobrtSwaggerAlias(x).ID == x.ID && gobrtSwaggerAlias(x).Swagger == x.Swagger && gobrtSwaggerAlias(x).Host == x.Host && gobrtSwaggerAlias(x).BasePath == x.BasePath)
+//@ axiom forall x OperationProps :: triggers(gobrtOpsAlias(x)) && (len(gobrtOpsAlias(x).Security) == len(x.Security) && (len(x.Security) == 0 ==> gobrtOpsAlias(x).Security == nil)
+//@           && gobrtOpsAlias(x).Description == x.Description && gobrtOpsAlias(x).Summary == x.Summary && gobrtOpsAlias(x).ID == x.ID && gobrtOpsAlias(x).Deprecated == x.Deprecated)
+//@ define streamOf(d ptr) ptr = bufStream[decSrc(d)]
 //@ ext (*encoding/gob.Decoder).Decode
 //@   params d, v
 //@   assigns region(payload(v))
 //@   ensures holds(v, "*[]byte") && result == nil ==> jv(*asPtr(v, "*[]byte")) == gobVal[decSrc(d)] && *asPtr(v, "*[]byte") != nil
+//@   ensures holds(v, "*struct{Props SwaggerProps; Ext VendorExtensible}") && result == nil ==>
+//@             asPtr(v, "*struct{Props SwaggerProps; Ext VendorExtensible}").Props == gobrtSwaggerProps(gobProps[streamOf(d)]) && asPtr(v, "*struct{Props SwaggerProps; Ext VendorExtensible}").Ext == gobrtExt(gobExt[streamOf(d)])
+//@   ensures holds(v, "*struct{Ext VendorExtensible; Props OperationProps}") && result == nil ==>
+//@             asPtr(v, "*struct{Ext VendorExtensible; Props OperationProps}").Props == gobrtOperationProps(gobOpProps[streamOf(d)]) && asPtr(v, "*struct{Ext VendorExtensible; Props OperationProps}").Ext == gobrtExt(gobExt[streamOf(d)])
+//@   ensures holds(v, "*gobSwaggerPropsAlias") && result == nil ==> asPtr(v, "*gobSwaggerPropsAlias").SecurityIsEmpty == gobPad[streamOf(d)].SecurityIsEmpty
+//@             && (asPtr(v, "*gobSwaggerPropsAlias").Alias != nil) == (gobPad[streamOf(d)].Alias != nil)
+//@             && (asPtr(v, "*gobSwaggerPropsAlias").Alias != nil ==> freshObj(asPtr(v, "*gobSwaggerPropsAlias").Alias) && *asPtr(v, "*gobSwaggerPropsAlias").Alias == gobrtSwaggerAlias(gobPadAlias[streamOf(d)]))
+//@             && len(asPtr(v, "*gobSwaggerPropsAlias").Security) == len(gobPad[streamOf(d)].Security)
+//@   ensures holds(v, "*gobAlias") && result == nil ==> asPtr(v, "*gobAlias").SecurityIsEmpty == gobOpPad[streamOf(d)].SecurityIsEmpty
+//@             && (asPtr(v, "*gobAlias").Alias != nil) == (gobOpPad[streamOf(d)].Alias != nil)
+//@             && (asPtr(v, "*gobAlias").Alias != nil ==> freshObj(asPtr(v, "*gobAlias").Alias) && *asPtr(v, "*gobAlias").Alias == gobrtOpsAlias(gobOpPadAlias[streamOf(d)]))
+//@             && len(asPtr(v, "*gobAlias").Security) == len(gobOpPad[streamOf(d)].Security)
 
 //@ func verifLemmaRefGob
 //@   property C13, C14
@@ -1958,3 +2004,73 @@ package spec
 //@   assigns  ghost(bufText, gobVal)
 //@   ensures  [C06,C01] names-quoted @@ result1 == nil ==> textOf(result0) == objText(items, len(items)) + "}"
 //@   loop 0 invariant 0 <= $i0 && $i0 <= len(items) && buf != nil && bufText[buf] == objText(items, $i0)
+
+// ---- gob codecs of the root and of operations (C14)
+//@ func verifLemmaSwaggerGob
+//@   property C14
+//@   ensures  [C14] props-and-extensions-transported @@ result1 == nil && result2 == nil ==> result0.SwaggerProps == gobrtSwaggerProps(s.SwaggerProps) && result0.VendorExtensible == gobrtExt(s.VendorExtensible)
+
+//@ func verifLemmaOperationGob
+//@   property C14
+//@   ensures  [C14] props-and-extensions-transported @@ result1 == nil && result2 == nil ==> result0.OperationProps == gobrtOperationProps(o.OperationProps) && result0.VendorExtensible == gobrtExt(o.VendorExtensible)
+
+//@ func verifLemmaSwaggerPropsGob
+//@   property C14
+//@   requires len(o.Security) >= 0 && (o.Security == nil ==> len(o.Security) == 0)
+//@   ensures  [C14] absent-security-stays-absent @@ result1 == nil && result2 == nil && o.Security == nil ==> result0.Security == nil
+//@   ensures  [C14] empty-security-stays-empty @@ result1 == nil && result2 == nil && o.Security != nil && len(o.Security) == 0 ==> result0.Security != nil && len(result0.Security) == 0
+//@   ensures  [C14] non-empty-security-keeps-length @@ result1 == nil && result2 == nil && len(o.Security) > 0 ==> len(result0.Security) == len(o.Security)
+//@   ensures  [C14] strings-transported @@ result1 == nil && result2 == nil ==> result0.Swagger == o.Swagger && result0.Host == o.Host && result0.BasePath == o.BasePath && result0.ID == o.ID
+
+//@ func verifLemmaOperationPropsGob
+//@   property C14
+//@   requires len(o.Security) >= 0 && (o.Security == nil ==> len(o.Security) == 0)
+//@   ensures  [C14] absent-security-stays-absent @@ result1 == nil && result2 == nil && o.Security == nil ==> result0.Security == nil
+//@   ensures  [C14] empty-security-stays-empty @@ result1 == nil && result2 == nil && o.Security != nil && len(o.Security) == 0 ==> result0.Security != nil && len(result0.Security) == 0
+//@   ensures  [C14] non-empty-security-keeps-length @@ result1 == nil && result2 == nil && len(o.Security) > 0 ==> len(result0.Security) == len(o.Security)
+//@   ensures  [C14] strings-transported @@ result1 == nil && result2 == nil ==> result0.Description == o.Description && result0.Summary == o.Summary && result0.ID == o.ID && result0.Deprecated == o.Deprecated
+
+// the padded encoding of SwaggerProps / OperationProps: what is sent (GobEncode) and what is rebuilt from it (GobDecode)
+//@ func (SwaggerProps).GobEncode
+//@   property C14
+//@   requires len(o.Security) >= 0 && (o.Security == nil ==> len(o.Security) == 0)
+//@   ensures  [C14] alias-sent @@ result1 == nil ==> gobPad[gobStream(result0)].Alias != nil
+//@   ensures  [C14] empty-flag-sent @@ result1 == nil ==> gobPad[gobStream(result0)].SecurityIsEmpty == (o.Security != nil && len(o.Security) == 0)
+//@   ensures  [C14] alias-security-sent @@ result1 == nil ==> len(gobPadAlias[gobStream(result0)].Security) == len(o.Security)
+//@   ensures  [C14] padded-security-sent @@ result1 == nil && len(o.Security) > 0 ==> len(gobPad[gobStream(result0)].Security) == len(o.Security)
+//@   ensures  [C14] strings-sent @@ result1 == nil ==> gobPadAlias[gobStream(result0)].Swagger == o.Swagger && gobPadAlias[gobStream(result0)].Host == o.Host && gobPadAlias[gobStream(result0)].BasePath == o.BasePath && gobPadAlias[gobStream(result0)].ID == o.ID
+//@   loop 0 invariant 0 <= $i0 && $i0 <= len(o.Security) && len(raw.Security) == $i0 && raw.Alias != nil && !raw.SecurityIsEmpty
+//@   loop 0 invariant len(raw.Alias.Security) == len(o.Security) && raw.Alias.Swagger == o.Swagger && raw.Alias.Host == o.Host && raw.Alias.BasePath == o.BasePath && raw.Alias.ID == o.ID
+
+//@ func (*SwaggerProps).GobDecode
+//@   property C14
+//@   requires o != nil
+//@   assigns  region(o), ghost(gobVal, bufText, bufStream)
+//@   ensures  [C14] empty-rebuilt @@ result == nil && gobPad[gobStream(b)].Alias != nil && gobPad[gobStream(b)].SecurityIsEmpty ==> o.Security != nil && len(o.Security) == 0
+//@   ensures  [C14] absent-rebuilt @@ result == nil && gobPad[gobStream(b)].Alias != nil && !gobPad[gobStream(b)].SecurityIsEmpty && len(gobPadAlias[gobStream(b)].Security) == 0 ==> o.Security == nil
+//@   ensures  [C14] length-rebuilt @@ result == nil && gobPad[gobStream(b)].Alias != nil && !gobPad[gobStream(b)].SecurityIsEmpty && len(gobPadAlias[gobStream(b)].Security) > 0 ==> len(o.Security) == len(gobPad[gobStream(b)].Security)
+//@   ensures  [C14] strings-rebuilt @@ result == nil && gobPad[gobStream(b)].Alias != nil ==> o.Swagger == gobPadAlias[gobStream(b)].Swagger && o.Host == gobPadAlias[gobStream(b)].Host && o.BasePath == gobPadAlias[gobStream(b)].BasePath && o.ID == gobPadAlias[gobStream(b)].ID
+//@   loop 0 invariant 0 <= $i0 && $i0 <= len(raw.Security) && raw.Alias != nil && len(raw.Alias.Security) == $i0 && raw.Alias.Security != nil && fresh(sliceArr(raw.Alias.Security))
+//@   loop 0 invariant raw.Alias.Swagger == gobPadAlias[gobStream(b)].Swagger && raw.Alias.Host == gobPadAlias[gobStream(b)].Host && raw.Alias.BasePath == gobPadAlias[gobStream(b)].BasePath && raw.Alias.ID == gobPadAlias[gobStream(b)].ID
+
+//@ func (OperationProps).GobEncode
+//@   property C14
+//@   requires len(op.Security) >= 0 && (op.Security == nil ==> len(op.Security) == 0)
+//@   ensures  [C14] alias-sent @@ result1 == nil ==> gobOpPad[gobStream(result0)].Alias != nil
+//@   ensures  [C14] empty-flag-sent @@ result1 == nil ==> gobOpPad[gobStream(result0)].SecurityIsEmpty == (op.Security != nil && len(op.Security) == 0)
+//@   ensures  [C14] alias-security-sent @@ result1 == nil ==> len(gobOpPadAlias[gobStream(result0)].Security) == len(op.Security)
+//@   ensures  [C14] padded-security-sent @@ result1 == nil && len(op.Security) > 0 ==> len(gobOpPad[gobStream(result0)].Security) == len(op.Security)
+//@   ensures  [C14] strings-sent @@ result1 == nil ==> gobOpPadAlias[gobStream(result0)].Description == op.Description && gobOpPadAlias[gobStream(result0)].Summary == op.Summary && gobOpPadAlias[gobStream(result0)].ID == op.ID && gobOpPadAlias[gobStream(result0)].Deprecated == op.Deprecated
+//@   loop 0 invariant 0 <= $i0 && $i0 <= len(op.Security) && len(raw.Security) == $i0 && raw.Alias != nil && !raw.SecurityIsEmpty
+//@   loop 0 invariant len(raw.Alias.Security) == len(op.Security) && raw.Alias.Description == op.Description && raw.Alias.Summary == op.Summary && raw.Alias.ID == op.ID && raw.Alias.Deprecated == op.Deprecated
+
+//@ func (*OperationProps).GobDecode
+//@   property C14
+//@   requires op != nil
+//@   assigns  region(op), ghost(gobVal, bufText, bufStream)
+//@   ensures  [C14] empty-rebuilt @@ result == nil && gobOpPad[gobStream(b)].Alias != nil && gobOpPad[gobStream(b)].SecurityIsEmpty ==> op.Security != nil && len(op.Security) == 0
+//@   ensures  [C14] absent-rebuilt @@ result == nil && gobOpPad[gobStream(b)].Alias != nil && !gobOpPad[gobStream(b)].SecurityIsEmpty && len(gobOpPadAlias[gobStream(b)].Security) == 0 ==> op.Security == nil
+//@   ensures  [C14] length-rebuilt @@ result == nil && gobOpPad[gobStream(b)].Alias != nil && !gobOpPad[gobStream(b)].SecurityIsEmpty && len(gobOpPadAlias[gobStream(b)].Security) > 0 ==> len(op.Security) == len(gobOpPad[gobStream(b)].Security)
+//@   ensures  [C14] strings-rebuilt @@ result == nil && gobOpPad[gobStream(b)].Alias != nil ==> op.Description == gobOpPadAlias[gobStream(b)].Description && op.Summary == gobOpPadAlias[gobStream(b)].Summary && op.ID == gobOpPadAlias[gobStream(b)].ID && op.Deprecated == gobOpPadAlias[gobStream(b)].Deprecated
+//@   loop 0 invariant 0 <= $i0 && $i0 <= len(raw.Security) && raw.Alias != nil && len(raw.Alias.Security) == $i0 && raw.Alias.Security != nil && fresh(sliceArr(raw.Alias.Security))
+//@   loop 0 invariant raw.Alias.Description == gobOpPadAlias[gobStream(b)].Description && raw.Alias.Summary == gobOpPadAlias[gobStream(b)].Summary && raw.Alias.ID == gobOpPadAlias[gobStream(b)].ID && raw.Alias.Deprecated == gobOpPadAlias[gobStream(b)].Deprecated
